@@ -8,7 +8,7 @@ import os
 from ..model import AnalysisError
 from ..norm import Normalizer
 from ..vgraph import FALSE, NONE, TRUE, Closure, show, walk
-from .util import live, one
+from .util import entails, live, one
 
 EXPLANATION = (
     "Writer/reader agreement of Serializable.serialize / deserialize; bit-identical restoration and loud failure on shape mismatch "
@@ -43,6 +43,22 @@ def equinox_suffix_rule():
     return None
 
 
+SER_SIG = ("path_or_file", "pytree", "filter_spec", "is_leaf")
+DESER_SIG = ("path_or_file", "like", "filter_spec", "is_leaf")
+
+
+def eqx_args(call, sig):
+    """arguments of an Equinox (de)serialisation call by parameter name, positional or keyword; None when they cannot be named"""
+    if any(isinstance(a, tuple) and a and a[0] == "star" for a in call[2]) or any(k is None for k, _ in call[3]) or len(call[2]) > len(sig):
+        return None
+    out = dict(zip(sig, call[2]))
+    for k, v in call[3]:
+        if k in out or k not in sig:
+            return None
+        out[k] = v
+    return out
+
+
 def check(s):
     P = s.prog
     self_ = ("param", "self")
@@ -52,7 +68,7 @@ def check(s):
     loc = s.loc("Serializable", "serialize")
     P0 = ("call", ("global", "pathlib.Path"), (("param", "path"),), ())
     paths = live(s.paths(b, "Serializable", "serialize"))
-    missing_test = nz.canon(s.ref(b, "not Path(path).parent.exists()", {"path": ("param", "path"), "Path": ("global", "pathlib.Path")}))
+    missing_goal = s.ref(b, "not Path(path).parent.exists()", {"path": ("param", "path"), "Path": ("global", "pathlib.Path")})
     table = {}
     n_missing = 0
     for p in paths:
@@ -61,10 +77,13 @@ def check(s):
         if len(writes) != 1:
             continue
         wi, (_, w, _ln) = writes[0]
-        s.ob("C18.3", con, len(w[2]) == 2 and w[2][1] == self_ and not w[3], "the writer serialises `self` with the default leaf filters (no filter_spec / is_leaf)", loc,
+        wa = eqx_args(w, SER_SIG)
+        s.ob("C18.3", con, wa is not None and set(wa) == {"path_or_file", "pytree"} and wa["pytree"] == self_, "the writer serialises `self` with the default leaf filters (no filter_spec / is_leaf)", loc,
              key="writer-args", detail=show(w, maxlen=160), necessary_for="writer and reader agree on which leaves are stored")
-        parent_missing = any((nz.canon(t) == missing_test and v) or (nz.boolean(("un", "Not", t)) == missing_test and not v) for t, v in p.conds)
-        parent_present = any((nz.canon(t) == missing_test and not v) or (nz.boolean(("un", "Not", t)) == missing_test and v) for t, v in p.conds)
+        if wa is None or "path_or_file" not in wa:
+            continue
+        pm = entails(nz, p.conds, missing_goal)
+        parent_missing, parent_present = pm is True, pm is False
         mk = [(i, e) for i, e in enumerate(p.effects) if isinstance(e[1], tuple) and e[1][0] == "call" and isinstance(e[1][1], tuple) and e[1][1][0] == "attr" and e[1][1][2] == "mkdir"]
         if not parent_present:
             # the directory may be missing on this path (either tested and found missing, or never tested): it has to be created,
@@ -76,13 +95,13 @@ def check(s):
             s.ob("C18.1", con, len(good) >= 1, "when the parent directory may be missing, path.parent.mkdir(parents=True) runs before the write (with exist_ok=True unless guarded by an existence test)",
                  loc, key="mkdir-before-write", detail="; ".join(show(e[1], maxlen=120) for _, e in mk) or "no mkdir", necessary_for="saving into not-yet-existing directories (any number of missing levels) works")
         # suffix rule of the writer, as a function of the abstract suffix
-        target = w[2][0]
-        suf_tests = [(t, v) for t, v in p.conds if ("attr", P0, "suffix") in set(walk(t))]
-        if len(suf_tests) != 1:
-            raise AnalysisError(f"{con}: expected one suffix test per path")
-        t, v = suf_tests[0]
+        target = wa["path_or_file"]
         want_t = s.ref(b, "Path(path).suffix != '.eqx' and not no_suffix", {"path": ("param", "path"), "Path": ("global", "pathlib.Path"), "no_suffix": ("param", "no_suffix")})
-        s.ob("C18.2", con, nz.canon(t) == nz.canon(want_t), "the writer's suffix test is `path.suffix != '.eqx' and not no_suffix`", loc, key="suffix-test", detail=show(t, maxlen=160))
+        v = entails(nz, p.conds, want_t)
+        s.ob("C18.2", con, v is not None, "every path of the writer decides `path.suffix != '.eqx' and not no_suffix` (in any spelling)", loc, key="suffix-test",
+             detail="; ".join(f"{show(t_, maxlen=120)}={v_}" for t_, v_ in p.conds))
+        if v is None:
+            continue
         if v:
             okt = target == ("call", ("attr", P0, "with_suffix"), (("const", ".eqx"),), ())
         else:
@@ -100,10 +119,11 @@ def check(s):
         raise AnalysisError(f"{conr}: no non-raising path")
     for pr in rpaths:
         r = pr.ret
-        ok = isinstance(r, tuple) and r[0] == "call" and r[1] == ("global", "equinox.tree_deserialise_leaves") and len(r[2]) == 2 and not r[3]
+        ra = eqx_args(r, DESER_SIG) if isinstance(r, tuple) and r[0] == "call" and r[1] == ("global", "equinox.tree_deserialise_leaves") else None
+        ok = ra is not None and set(ra) == {"path_or_file", "like"}
         s.ob("C18.3", conr, ok, "the reader is tree_deserialise_leaves(path, skeleton) with the default leaf filters", locr, key="reader-shape", detail=show(r, maxlen=200))
         if ok:
-            sk = r[2][1]
+            sk = ra["like"]
             want = ("call", ("global", "equinox.filter_eval_shape"), (("param", "cls"), ("star", ("param", "*args"))), ((None, ("param", "**kwargs")),))
             s.ob("C18.3", conr, sk == want, "the skeleton is eqx.filter_eval_shape(cls, *args, **kwargs): same class, same constructor arguments", locr, key="skeleton",
                  detail=show(sk, maxlen=200), necessary_for="loading with the same constructor arguments restores the same tree structure")
@@ -171,11 +191,11 @@ def check(s):
 
     def wtarget(p_):
         ws = [e for e in p_.effects if isinstance(e[1], tuple) and e[1][0] == "call" and e[1][1] == ("global", "equinox.tree_serialise_leaves")]
-        return ws[0][1][2][0] if len(ws) == 1 and ws[0][1][2] else None
+        return (eqx_args(ws[0][1], SER_SIG) or {}).get("path_or_file") if len(ws) == 1 else None
 
     def rtarget(p_):
         r_ = p_.ret
-        return r_[2][0] if isinstance(r_, tuple) and r_[0] == "call" and r_[1] == ("global", "equinox.tree_deserialise_leaves") and r_[2] else None
+        return (eqx_args(r_, DESER_SIG) or {}).get("path_or_file") if isinstance(r_, tuple) and r_[0] == "call" and r_[1] == ("global", "equinox.tree_deserialise_leaves") else None
 
     rows = []
     agree = True
